@@ -8,9 +8,11 @@ import (
 	"html"
 	"html/template"
 	"reflect"
+	"runtime"
 	"runtime/debug"
 	"strings"
 	"sync"
+	"sync/atomic"
 	"time"
 
 	"github.com/gobuffalo/plush/v5"
@@ -406,17 +408,33 @@ func guarded(timeout time.Duration, f func() (string, error)) observation {
 	if ext < time.Minute {
 		ext = time.Minute
 	}
-	select {
-	case o := <-ch:
-		hangMu.Lock()
-		slowCount++
-		hangMu.Unlock()
-		return o
-	case <-time.After(ext):
-		hangMu.Lock()
-		hangCount++
-		hangMu.Unlock()
-		return observation{Hang: true}
+	deadline := time.After(ext)
+	tick := time.NewTicker(500 * time.Millisecond)
+	defer tick.Stop()
+	for {
+		select {
+		case o := <-ch:
+			hangMu.Lock()
+			slowCount++
+			hangMu.Unlock()
+			return o
+		case <-tick.C:
+			// a call that loops AND allocates would take the machine down before the deadline
+			var ms runtime.MemStats
+			runtime.ReadMemStats(&ms)
+			if ms.HeapAlloc > 6<<30 {
+				atomic.StoreInt32(&runaway, 1)
+				hangMu.Lock()
+				hangCount++
+				hangMu.Unlock()
+				return observation{Hang: true}
+			}
+		case <-deadline:
+			hangMu.Lock()
+			hangCount++
+			hangMu.Unlock()
+			return observation{Hang: true}
+		}
 	}
 }
 
